@@ -150,7 +150,6 @@ def merge_env(a: dict, b: dict) -> dict:
 
 
 class Summary:
-    __slots__ = ("effects", "returns", "raises")
 
     def __init__(self):
         self.effects: Set[Effect] = set()
@@ -282,7 +281,8 @@ class FuncAnalysis:
             self.sum.returns = self.ev(node.body, env)
         else:
             env = self.block(node.body, env)
-        self.eng._family_env[self.f.qual] = dict(env)
+        self.sum.returns = _compact(self.sum.returns)
+        self.eng._family_env[self.f.qual] = {k: _compact(v) for k, v in env.items()}
         if self.restores:
             self.eng.restores[self.f.qual] = dict(self.restores)
         # classify restored effects
@@ -1075,6 +1075,28 @@ class FuncAnalysis:
                 if consistent(x.cond):
                     out.add(x)
         return frozenset(out)
+
+
+RETPATH = 2
+
+
+def _compact(val):
+    """Bound returned / captured abstract values (deterministic, size independent, hence monotone):
+    paths of non-fresh origins and of shadows are cut to depth RETPATH, at most two flag conditions kept."""
+    out = set()
+    for o in val:
+        path, shadow, cond = o.path, o.shadow, o.cond
+        if o.root != FRESH and len(path) > RETPATH:
+            path = tuple(path[:RETPATH]) + ("...",)
+        if shadow is not None and len(shadow.path) > RETPATH:
+            shadow = Org(shadow.root, tuple(shadow.path[:RETPATH]) + ("...",), frozenset(), None)
+        elif shadow is not None and shadow.cond:
+            shadow = Org(shadow.root, shadow.path, frozenset(), None)
+        if len(cond) > 1:
+            keep = [c for c in sorted(cond) if c[0] == "inplace"] or sorted(cond)[:1]
+            cond = frozenset(keep[:1])
+        out.add(Org(o.root, path, cond, shadow))
+    return frozenset(out)
 
 
 def aliasing_setstate(m: FuncInfo) -> bool:
